@@ -2,6 +2,7 @@ import Driver.Proto
 import Gotree.Model.C08
 import Gotree.Model.C08HM
 import Gotree.Spec.C08
+import Gotree.Spec.C05
 
 namespace Gotree.Driver.C08
 open Gotree Gotree.Driver Gotree.C08
@@ -15,7 +16,7 @@ def parseBool : String → Option Bool
   | "1" => some true | "true" => some true | "0" => some false | "false" => some false | _ => none
 
 def parseCmpOut (s : String) : Option (Out Stats) :=
-  if s == "err" then some (.res .err)
+  if s == "err" || s.startsWith "err;" then some (.res .err)
   else if s == "referr" then some (.res .refErr)
   else if s.startsWith "panic:" then some (.panic s)
   else match s.splitOn ";" with
@@ -26,7 +27,7 @@ def parseCmpOut (s : String) : Option (Out Stats) :=
     | _ => none
 
 def parseWOut (s : String) : Option (Out WStats) :=
-  if s == "err" then some (.res .err)
+  if s == "err" || s.startsWith "err;" then some (.res .err)
   else if s == "referr" then some (.res .refErr)
   else if s.startsWith "panic:" then some (.panic s)
   else match s.splitOn ";" with
@@ -125,6 +126,9 @@ def oracleW (r c : T) (tips sc : Bool) (o : Out WStats) : Option String :=
         let ws := wSame r c tips
         if w.same != ws then some ("weighted Sametree=" ++ toString w.same ++ " but Spec says " ++ toString ws)
         else if sc then none
+        -- the terms are lengths: where a counted branch has none (sentinel -1) the term oracle
+        -- does not apply (the flag oracle above and the tie `tieW` do)
+        else if !(lensPresent tips r && lensPresent tips c) then none
         else if !(wTermsOK r c tips w.tree1 w.tree2 w.common) then
           some ("weighted terms differ from the Spec: ref " ++ showRatList (sortR w.tree1) ++ " comp " ++
                 showRatList (sortR w.tree2) ++ " common " ++ showRatList (sortR w.common))
@@ -153,6 +157,23 @@ def tieW (r c : T) (tips sc : Bool) (o : Out WStats) : Option String :=
     single-child nodes (theorems `compare_any`, `compare_self`) the tie alone. -/
 def inRegion (r c : T) : Bool := r.uniqueTips && c.uniqueTips
 
+/-- tie on what a rejected record carries besides `Err` (`errRecord`, `errRecordW`) -/
+def tieErr (r : T) (tips : Bool) (raw : String) : Option String :=
+  match raw.splitOn ";" with
+  | ["err", a, b, c, d] =>
+    let m := errRecord r tips
+    if a.toInt? == some m.tree1 && b.toInt? == some m.common && c.toInt? == some m.tree2 && parseBool d == some m.same then none
+    else some ("rejected record carries (" ++ a ++ "," ++ b ++ "," ++ c ++ "," ++ d ++ "), model (" ++
+      toString m.tree1 ++ ",0,0,false): the comparison ran on a tree with other taxa")
+  | _ => none
+
+def tieErrW (raw : String) : Option String :=
+  match raw.splitOn ";" with
+  | ["err", d, a, b, c] =>
+    if parseBool d == some false && a == "" && b == "" && c == "" then none
+    else some "rejected weighted record carries terms: the comparison ran on a tree with other taxa"
+  | _ => none
+
 /-- first failure of a list of labelled checks -/
 def firstFail : List (String × Option String) → Option String
   | [] => none
@@ -177,6 +198,8 @@ def handleCore (op : String) (f : List String) : Verdict :=
       let hyp := unrootedOK r && unrootedOK c && r.uniqueTips && c.uniqueTips && sameTaxa r c
       let views := sameView r r2 && sameView c c2
       let tags := tags ++ tagIf views "rerooted-copy" ++
+        -- hypotheses of `compare_reroot_invariant` / `compare_rotate_invariant` on the copies
+        tagIf (hyp && views && unrootedOK r2 && unrootedOK c2 && C05.lensOK r && C05.lensOK c) "hyp-reroot-invariant" ++
         -- branches of the model taken
         (match compare r c tips sc with
          | .ok m => tagIf (sc && !m.same) "model-shortcut-break-or-total" ++ tagIf (m.tree1 < 0 || m.tree2 < 0) "model-negative-count"
@@ -200,12 +223,12 @@ def handleCore (op : String) (f : List String) : Verdict :=
       | some m => ⟨.oracle, tags, m⟩
       | none =>
         match firstFail [("ref,comp", tieCmp r c tips sc x1), ("comp,ref", tieCmp c r tips sc x2),
-                         ("rerooted", tieCmp r2 c2 tips sc x3)] with
+                         ("rerooted", tieCmp r2 c2 tips sc x3), ("ref,comp", tieErr r tips o1),
+                         ("comp,ref", tieErr c tips o2), ("rerooted", tieErr r2 tips o3)] with
         | some m =>
           -- the tie is property-relative: where the property says nothing (rooted trees,
           -- single-child nodes) a difference is a fidelity figure, not an alarm
-          if inRegion r c && inRegion r2 c2 then ⟨.tie, tags, m⟩
-          else ⟨.pass, "fidelity-diff-outside-hyp" :: tags, m⟩
+          ⟨.tie, tags, m⟩
         | none => ⟨.pass, tags, ""⟩
     | _, _, _, _, _, _, _, _, _ => bad "C08.cmp fields"
   | "wcmp", [tipsS, scS, dR, dC, dR2, dC2, o1, o2, o3] =>
@@ -214,10 +237,12 @@ def handleCore (op : String) (f : List String) : Verdict :=
     | some tips, some sc, some r, some c, some r2, some c2, some x1, some x2, some x3 =>
       let tags := "weighted" :: pairTags r c tips sc ++
         tagIf ((r.edges ++ c.edges).any (·.len == NIL)) "absent-len" ++
+        tagIf (lensPresent tips r && lensPresent tips c) "hyp-lens-present" ++
         tagIf ((r.edges ++ c.edges).any (·.len == 0)) "zero-len"
       let hyp := unrootedOK r && unrootedOK c && r.uniqueTips && c.uniqueTips && sameTaxa r c
       let views := sameView r r2 && sameView c c2
       let tags := tags ++ tagIf views "rerooted-copy" ++
+        tagIf (hyp && views && unrootedOK r2 && unrootedOK c2 && C05.lensOK r && C05.lensOK c) "hyp-reroot-invariant" ++
         (match compareWeighted r c tips sc with
          | .ok m => tagIf (m.common.any (· != 0)) "model-common-lendiff" ++ tagIf (!m.tree1.isEmpty) "model-ref-only" ++
                     tagIf (!m.tree2.isEmpty) "model-comp-only" ++ tagIf (sc && !m.same) "model-shortcut-break"
@@ -228,12 +253,12 @@ def handleCore (op : String) (f : List String) : Verdict :=
         match x1, x2, x3 with
         | .res (.ok a), .res (.ok b), .res (.ok d) =>
           if a.same != b.same then some "swap: weighted Sametree changes when the trees are swapped"
-          else if !sc && !(sameMS a.tree1 b.tree2 && sameMS a.tree2 b.tree1 && sameMS (a.common.map absR) (b.common.map absR)) then
+          else if !sc && !(sameMS a.tree1 b.tree2 && sameMS a.tree2 b.tree1 && sameMS a.common (negL b.common)) then
             some "swap: weighted terms are not swapped when the trees are swapped"
           else if views && unrootedOK r2 && unrootedOK c2 && a.same != d.same then
             some "invariance: weighted Sametree changes with the rooting / child order"
           else if views && unrootedOK r2 && unrootedOK c2 && !sc &&
-              !(sameMS a.tree1 d.tree1 && sameMS a.tree2 d.tree2 && sameMS (a.common.map absR) (d.common.map absR)) then
+              !(sameMS a.tree1 d.tree1 && sameMS a.tree2 d.tree2 && sameMS a.common d.common) then
             some "invariance: weighted terms change with the rooting / child order"
           else none
         | _, _, _ => none
@@ -242,12 +267,12 @@ def handleCore (op : String) (f : List String) : Verdict :=
       | some m => ⟨.oracle, tags, m⟩
       | none =>
         match firstFail [("ref,comp", tieW r c tips sc x1), ("comp,ref", tieW c r tips sc x2),
-                         ("rerooted", tieW r2 c2 tips sc x3)] with
+                         ("rerooted", tieW r2 c2 tips sc x3), ("ref,comp", tieErrW o1),
+                         ("comp,ref", tieErrW o2), ("rerooted", tieErrW o3)] with
         | some m =>
           -- the tie is property-relative: where the property says nothing (rooted trees,
           -- single-child nodes) a difference is a fidelity figure, not an alarm
-          if inRegion r c && inRegion r2 c2 then ⟨.tie, tags, m⟩
-          else ⟨.pass, "fidelity-diff-outside-hyp" :: tags, m⟩
+          ⟨.tie, tags, m⟩
         | none => ⟨.pass, tags, ""⟩
     | _, _, _, _, _, _, _, _, _ => bad "C08.wcmp fields"
   | "common", [tipsS, dA, dB, o] =>
@@ -417,7 +442,9 @@ def handleCore (op : String) (f : List String) : Verdict :=
       let rows := (splitTerm "|" rowsS).map (·.splitOn ";")
       let cs := if mode == "f" then cs.take 1 else cs
       let tags := ["cli", "cli-tips", "cli-tips-" ++ mode] ++
-        tagIf (cs.any fun c => !sameTaxa r c) "difftaxa" ++ tagIf (cs.any fun c => !sameTaxa r c) "nontrivial"
+        tagIf (cs.any fun c => !sameTaxa r c) "difftaxa" ++
+        -- non-trivial: some tree shares taxa with the reference and has taxa of its own / lacks some
+        tagIf (cs.any fun c => !sameTaxa r c && r.tipNames.any (fun x => c.tipNames.contains x)) "nontrivial"
       if !(r.uniqueTips && cs.all (·.uniqueTips)) then ⟨.pass, "skip-dupnames" :: tags, ""⟩
       else if outcome != "ok" then ⟨.oracle, tags, "compare tips failed: " ++ outcome⟩
       else
